@@ -153,6 +153,18 @@ def copies(E, s):
         E.true('dtype', all(str(c.dtype) == 'torch.' + s['dtype'] for c in y.cores))
         E.eq('value', dense(E, y.cores), xd)
     E.true('new_object', y is not x and y.cores is not x.cores)
+    if s.get('then_set_core'):
+        # the copy is an object of its own: giving it a core with other mode sizes leaves the original's description alone
+        before = _meta(x)
+        c0 = y.cores[0]
+        shp = [int(v) for v in c0.shape]
+        shp[1] += 1
+        if y.is_ttm:
+            shp[2] += 2
+        y.set_core(0, E.tensor('nc', shp, str(c0.dtype).replace('torch.', '')))
+        E.true('original_meta_after_copy_changed', _meta(x) == before and list(x.shape) == ([(m, n) for m, n in zip(before[2], before[1])] if before[0] else before[1]))
+        E.eq('original_value_after_copy_changed', dense(E, [c.detach() for c in x.cores]), xd)
+        return
     if op == 'clone':
         with tn.no_grad():
             for c in y.cores:
